@@ -275,6 +275,11 @@ def run_battery(prop: str, rule_ids: list[str]) -> dict[str, object]:
     jobs: list[tuple[str, str, Optional[Callable[[str, str], str]], Optional[str]]] = []
     for name, fn in NEUTRAL.items():
         jobs.append(("neutral", name, fn, None))
+    refac = os.path.join(VERIF, "neutral")
+    for rid in sorted(os.listdir(refac)) if os.path.isdir(refac) else []:
+        pth = os.path.join(refac, rid, "patch.diff")
+        if os.path.exists(pth):
+            jobs.append(("neutral", f"refactoring {rid}", None, pth))
     seeded = os.path.join(VERIF, "seeded")
     for sid in sorted(os.listdir(seeded)) if os.path.isdir(seeded) else []:
         meta_p = os.path.join(seeded, sid, "meta.json")
